@@ -5,7 +5,7 @@ import dataclasses
 from obligations import C08 as _c08, C09 as _c09
 from obligations.C08 import LFHT_TRUSTED
 
-SEL = ('C08.O7.small.add_helps', 'C07.O2.gc_bucket_retry_small', 'C06.O1.add_unique_small', 'C06.O1.add_unique', 'C06.O3.cds_lfht_add_replace', 'C08.O4.next', 'C08.O4.first', 'C08.O4.lookup', 'C08.O4.next_duplicate', 'C08.O5.add_plain', 'C08.O5.add_bucket', 'C07.O2.gc_bucket', 'C07.O2.gc_bucket_small', 'C07.O1.del',
+SEL = ('C08.O7.small.next_replaced', 'C08.O7.small.add_helps', 'C07.O2.gc_bucket_retry_small', 'C06.O1.add_unique_small', 'C06.O1.add_unique', 'C06.O3.cds_lfht_add_replace', 'C08.O4.next', 'C08.O4.first', 'C08.O4.lookup', 'C08.O4.next_duplicate', 'C08.O5.add_plain', 'C08.O5.add_bucket', 'C07.O2.gc_bucket', 'C07.O2.gc_bucket_small', 'C07.O1.del',
        'C06.O2.replace', 'C06.O2.replace_removed', 'C08.O1.tags')
 OBLIGATIONS = [o for o in _c08.OBLIGATIONS if o.name in SEL] + [o for o in _c09.OBLIGATIONS if o.name in ('C09.O3.init_table', 'C09.O3.fini_table', 'C09.O5.init_table_populate_partition', 'C09.O5.remove_table_partition', 'C09.O4.partition_helper')]
 META = {
